@@ -596,6 +596,8 @@ def run(ctx, rep, model=None):
                 continue
             if d and (d.endswith(".read") or d.endswith(".unpack") or d.endswith(".decode")):
                 continue
+            if d is None and isinstance(c.func, ast.Attribute) and c.func.attr in ("read", "unpack", "decode"):
+                continue          # method of an intermediate value (`_load(stream).decode(...)`)
             if d in ("_load_registry.get", "IMM_INTS_LOADER.get"):
                 continue
             if d in forbidden or (d and d.split(".")[0] in ("pickle", "importlib", "os", "sys", "subprocess", "marshal")):
